@@ -69,31 +69,87 @@ def cscript(script):
 
 # ---- Python rollers --------------------------------------------------------------------------
 
+def _variant(t, n):
+    """which of the n equivalent public spellings to use for this node: fixed by the node's content"""
+    import json
+    import zlib
+    return zlib.crc32(json.dumps(t, sort_keys=True).encode()) % n
+
+
+def _leaf_value(t):
+    from dyce import H
+    if t[0] == "val":
+        return gens.py_outcome(t[1])
+    if t[0] == "h":
+        return H(gens.py_hist_dict(t[1]))
+    return pools.py_pool(t[1])
+
+
 def build(t):
+    """builds the roller for a tree; nodes are spelled through the different public constructors and
+    convenience methods (operators, map/rmap/umap, *_from_values, *_iterable, select/filter methods), chosen
+    by a hash of the node so that a replayed case is built the same way"""
+    import operator
     from dyce import H, P
     from dyce.r import (R, ValueRoller, PoolRoller, RepeatRoller, SelectionRoller, FilterRoller,
                         SubstitutionRoller, RollOutcome, CoalesceMode)
     k = t[0]
-    if k == "val":
-        return R.from_value(gens.py_outcome(t[1]))
-    if k == "h":
-        return R.from_value(H(gens.py_hist_dict(t[1])))
-    if k == "p":
-        return R.from_value(pools.py_pool(t[1]))
+    leaves = ("val", "h", "p")
+    if k in leaves:
+        v = _leaf_value(t)
+        return R.from_value(v) if _variant(t, 2) else ValueRoller(v)
     if k == "pool":
-        return PoolRoller(sources=[build(x) for x in t[1]])
+        if all(x[0] in leaves for x in t[1]) and _variant(t, 3):
+            vals = [_leaf_value(x) for x in t[1]]
+            return R.from_values(*vals) if _variant(t, 2) else R.from_values_iterable(iter(vals))
+        srcs = [build(x) for x in t[1]]
+        return [lambda: PoolRoller(sources=srcs), lambda: R.from_sources(*srcs),
+                lambda: R.from_sources_iterable(iter(srcs))][_variant(t, 3)]()
     if k == "repeat":
-        return t[1] @ build(t[2])
+        return (t[1] @ build(t[2])) if _variant(t, 2) else RepeatRoller(t[1], build(t[2]))
     if k == "bin":
-        return BIN[t[1]][1](build(t[2]), build(t[3]))
+        name = t[1]
+        v = _variant(t, 4)
+        if name in ("add", "sub", "mul"):
+            op = {"add": operator.__add__, "sub": operator.__sub__, "mul": operator.__mul__}[name]
+            if v == 1 and t[3][0] == "val":
+                return op(build(t[2]), gens.py_outcome(t[3][1]))          # roller (op) scalar
+            if v == 2 and t[2][0] == "val":
+                return op(gens.py_outcome(t[2][1]), build(t[3]))          # scalar (op) roller: reflected
+            if v == 3:
+                return build(t[2]).map(op, build(t[3]))
+        return BIN[name][1](build(t[2]), build(t[3]))
     if k == "un":
-        return UN[t[1]][1](build(t[2]))
+        name = t[1]
+        if name in ("neg", "abs", "inv") and _variant(t, 2):
+            op = {"neg": operator.__neg__, "abs": operator.__abs__, "inv": operator.__invert__}[name]
+            return build(t[2]).umap(op)
+        return UN[name][1](build(t[2]))
     if k == "select":
+        which = pools.py_which(t[1])
+        v = _variant(t, 6)
+        if all(x[0] in leaves for x in t[2]) and v in (1, 2):
+            vals = [_leaf_value(x) for x in t[2]]
+            return R.select_from_values(which, *vals) if v == 1 else R.select_from_values_iterable(iter(which), iter(vals))
         srcs = [build(x) for x in t[2]]
-        return R.select_from_sources(pools.py_which(t[1]), *srcs)
+        if len(srcs) == 1 and v in (3, 4):
+            return srcs[0].select(*which) if v == 3 else srcs[0].select_iterable(iter(which))
+        if v == 5:
+            return R.select_from_sources_iterable(iter(which), iter(srcs))
+        return R.select_from_sources(which, *srcs)
     if k == "filter":
         f = PRED[t[1]][1]
-        return R.filter_from_sources(lambda o: f(o.value), *[build(x) for x in t[2]])
+        pred = lambda o: f(o.value)   # noqa: E731
+        v = _variant(t, 6)
+        if all(x[0] in leaves for x in t[2]) and v in (1, 2):
+            vals = [_leaf_value(x) for x in t[2]]
+            return R.filter_from_values(pred, *vals) if v == 1 else R.filter_from_values_iterable(pred, iter(vals))
+        srcs = [build(x) for x in t[2]]
+        if len(srcs) == 1 and v == 3:
+            return srcs[0].filter(pred)
+        if v == 4:
+            return R.filter_from_sources_iterable(pred, iter(srcs))
+        return R.filter_from_sources(pred, *srcs)
     if k == "subst":
         src = build(t[4])
         tbl = {Fraction(*v): e for v, e in t[1]}
@@ -105,7 +161,10 @@ def build(t):
             if e[0] == "out":
                 return RollOutcome(gens.py_outcome(e[1]))
             return src.roll()
-        return SubstitutionRoller(expansion_op, src, CoalesceMode.APPEND if t[2] else CoalesceMode.REPLACE, t[3])
+        mode = CoalesceMode.APPEND if t[2] else CoalesceMode.REPLACE
+        if _variant(t, 2):
+            return SubstitutionRoller(expansion_op, src, coalesce_mode=mode, max_depth=t[3])
+        return SubstitutionRoller(expansion_op, src, mode, t[3])
     raise ValueError(k)
 
 
